@@ -609,14 +609,18 @@ def run(run):
             seeds[cfg] = rng.randrange(1 << 30)
         return dict(workers=1, simulate=f"num={num}", depth=900, seed=seeds[cfg])
 
+    # (the small graphs first: they are replayed while TLC works on the larger ones)
     ahead = S.Ahead()
+    ahead.graph("Modules_spell")
     ahead.graph("Modules_quick")
     ahead.graph("Modules_pairs")
-    ahead.graph("Modules_sim", **sim_kw(1500 if quick else 10000, "Modules_sim"))
-    ahead.graph("Modules_spell")
     ahead.graph("Modules_two")
+    ahead.graph("Modules_sim", **sim_kw(1500 if quick else 10000, "Modules_sim"))
     for cfg in DEVIATIONS:
         ahead.start(cfg, workers=2, allow_violation=True, timeout=900)
+    if not quick:
+        ahead.graph("Modules_thorough")
+        ahead.graph("Modules_sim5", **sim_kw(10000, "Modules_sim5"))
     try:
         run_checks(run, quick, rng, info, ahead, sim_kw)
     finally:
@@ -655,12 +659,17 @@ def run_checks(run, quick, rng, info, ahead, sim_kw):
                       "tlc_wall_s": round(res.wall, 1), "replay_wall_s": round(time.time() - t0, 1)}
         return g, fsdefs, roots
 
+    bfs("Modules_spell", "Session/c11: bundled modules sys / stat under every spelling, a user module named by a "
+        "string, importer programs <= 3 commands", "bundled_spellings", off=("GenEdge",))
     g, fsdefs = bfs("Modules_quick", "Session/c11: all graphs over 3 modules, entry through the first module",
                     "graphs3_entry")
     run.sample({"FSDEF": fsdefs[min(40, len(fsdefs) - 1)]["g"],
                 "files": {m: S.module_source(m, r) for m, r in fsdefs[min(40, len(fsdefs) - 1)]["fs"].items()}})
     bfs("Modules_pairs", "Session/c11: all graphs over 2 modules, importer programs <= 2 commands, termination",
         "graphs2_pairs")
+    bfs("Modules_two", "Session/c11: two interpreters with different module directories (generated graph over 2 "
+        "modules / the fixed second directory), interleaved programs <= 2 commands", "two_directories",
+        interps=INTERPS2)
     g, fsdefs, roots = sim("Modules_sim", "Session/c11 simulation: random graphs over 3 modules, 4 commands",
                            "sim3", 1500 if quick else 10000)
     sid, fi, trie = roots[0]
@@ -668,11 +677,6 @@ def run_checks(run, quick, rng, info, ahead, sim_kw):
     run.sample({"importer": {"fs": fsdefs[fi]["g"], "first_command": S.cmd_source(g.out[sid][int(k)][0]),
                              "predicted_scope_after": g.obs[g.out[sid][int(k)][2]]["i1"]}})
     runner(run, g, fsdefs, roots, rng, info, 12 if quick else 80)
-    bfs("Modules_spell", "Session/c11: bundled modules sys / stat under every spelling, importer programs <= 3 "
-        "commands", "bundled_spellings", off=("GenEdge",))
-    bfs("Modules_two", "Session/c11: two interpreters with different module directories (generated graph over 2 "
-        "modules / the fixed second directory), interleaved programs <= 2 commands", "two_directories",
-        interps=INTERPS2)
     check_deviations(run, ahead, info)
     if not quick:
         bfs("Modules_thorough", "Session/c11: all graphs over 3 modules, importer programs <= 2 commands",
